@@ -38,11 +38,6 @@ structure Kind where
   /-- async class: `AsyncTransition._change_state` marks the previous state on the graph but never
       the new active one (the sync `TransitionGraphSupport._change_state` does) -/
   asyncio : Bool := false
-  /-- the locked hierarchical classes override `_locked_method` so that `trigger_event` holds the
-      contexts registered for the model (`model_context_map.get(id(model)) or machine_context`,
-      /repo 2c648fd); read off the live class by the harness.  Without the override the event holds
-      `machine_context` only. -/
-  nestedModelCtx : Bool := false
   deriving DecidableEq, Repr, Inhabited
 
 abbrev Tab (β : Type) := List (Nat × β)
@@ -188,11 +183,12 @@ inductive Obs
 
 /-- `LockedEvent.trigger` enters `model_context_map[id(model)]`; with `NestedEvent` (the locked
     hierarchical classes) the event goes through the public `trigger_event`, which
-    `LockedMachine.__getattribute__` wraps in `_locked_method`: `machine_context` only -/
+    `LockedMachine.__getattribute__` wraps in `_locked_method`; `LockedHierarchicalMachine._locked_method`
+    (as repaired, 2c648fd + 4ac33c2: also behind re-wrapped partials after unpickling) holds
+    `model_context_map.get(id(model)) or machine_context` for it -/
 def contexts (k : Kind) (M : PM) (m : Nat) : List Nat :=
   if k.locked then
-    (if k.nested then
-      (if k.nestedModelCtx then (if (lookupD m M.ctx).isEmpty then M.mctx else lookupD m M.ctx) else M.mctx)
+    (if k.nested then (if (lookupD m M.ctx).isEmpty then M.mctx else lookupD m M.ctx)
      else lookupD m M.ctx)
   else []
 
